@@ -44,6 +44,10 @@ theorem src_irateMerge_expected : src_irateMerge = "{ return func(prevTime int64
 
 theorem src_calcReduceResult_expected : src_calcReduceResult = "{ var firstTime, lastTime int64 var firstValue, lastValue float64 if len(prevT) > 0 { firstTime = prevT[0] firstValue = prevV[0] if len(currT) > 0 { lastTime = currT[len(currT)-1] lastValue = currV[len(currV)-1] } else { lastTime = prevT[len(prevT)-1] lastValue = prevV[len(prevV)-1] } } else { firstTime, lastTime = currT[0], currT[len(currT)-1] firstValue, lastValue = currV[0], currV[len(currV)-1] } reduceResult := lastValue - firstValue if isCounter { prev := firstValue for _, cur := range prevV { if cur < prev { reduceResult += prev } prev = cur } for _, cur := range currV { if cur < prev { reduceResult += prev } prev = cur } } return firstTime, lastTime, firstValue, lastValue, reduceResult }" := by rfl
 
+theorem clampCond_engine_expected : clampCond_engine = ["isCounter", "reduceResult > 0", "pointCount > 0", "firstValue >= 0"] := by rfl
+
+theorem clampCond_executor_expected : clampCond_executor = ["reduceResult > 0", "pointCount > 0", "firstValue >= 0"] := by rfl
+
 theorem fp_samplerAggregate_expected : fp_samplerAggregate = "20668f28a392d1c2" := by rfl
 
 theorem fp_peekSamples_expected : fp_peekSamples = "3e81cc8fb2e2c0ec" := by rfl
@@ -150,6 +154,16 @@ def chainOk (c : String × String × String) : Bool :=
   rangeVectorFunctions.lookup c.1 == some c.2.1 && promFunctionRegistry.lookup c.2.1 == some c.2.2
 
 theorem subset_chain_ok : subsetChain.all chainOk = true := by decide
+
+/-- the duration-to-zero clamp of the store-side rate / increase has the reference's condition
+(`clampApplies`: counter, increase > 0, first value >= 0 - a first value of exactly 0 is clamped). -/
+theorem clamp_condition_engine_is_reference :
+    clampCond_engine = ["isCounter", "reduceResult > 0", "pointCount > 0", "firstValue >= 0"] := by decide
+
+/-- the subquery-side implementation has the same condition on the values; it lacks `isCounter`
+(recorded finding: delta over a subquery is cut at the zero point). -/
+theorem clamp_condition_executor_is_reference_but_counter :
+    clampCond_executor = ["reduceResult > 0", "pointCount > 0", "firstValue >= 0"] := by decide
 
 /-- only `last_over_time` keeps the metric name (the reference: `rfnLabels`). -/
 theorem keepMetric_only_last : keepMetricFunctions = ["last_over_time"] := by decide
